@@ -215,3 +215,34 @@ def match_arms(m, leaf=lambda n: None):
                 names.append(a["p"])
         out.append((names, skeleton(arm["guard"], leaf) if arm.get("guard") else None, arm["body"]))
     return out
+
+
+def pmatch(pattern, text, mode="in"):
+    """Rename-insensitive match of an operator skeleton. In `pattern`, `$name` stands for *some* identifier (a local or a parameter): every occurrence of
+    the same `$name` must be the same identifier, different `$names` may or may not differ. Everything else is literal.
+    mode: 'in' (substring), 'start' (prefix), 'eq' (whole string). Returns the match object (truthy) or None."""
+    import re
+    out = []
+    seen = set()
+    i = 0
+    while i < len(pattern):
+        if pattern[i] == "$":
+            j = i + 1
+            while j < len(pattern) and (pattern[j].isalnum() or pattern[j] == "_"):
+                j += 1
+            nm = pattern[i + 1:j]
+            if nm in seen:
+                out.append(f"(?P={nm})")
+            else:
+                seen.add(nm)
+                out.append(f"(?P<{nm}>[A-Za-z_][A-Za-z0-9_]*)")
+            i = j
+        else:
+            out.append(re.escape(pattern[i]))
+            i += 1
+    rx = "".join(out)
+    if mode == "eq":
+        return re.fullmatch(rx, text)
+    if mode == "start":
+        return re.match(rx, text)
+    return re.search(rx, text)
